@@ -145,8 +145,17 @@ class CaseTimeout(BaseException):
 def deadline(seconds: float):
     """Per-case watchdog (worker main thread only)."""
 
+    # The budget is PROCESSOR time of this worker: on an oversubscribed machine the wall clock says nothing about the case.
+    # The wall-clock timer only wakes the watchdog up; it re-arms itself until the processor time is used up (backstop:
+    # 20 x the budget of wall time, for a case that blocks without computing).
+    c0 = time.process_time()
+    w0 = time.time()
+
     def onalarm(_sig, _frm):
-        raise CaseTimeout("case exceeded %.1f s" % seconds)
+        used = time.process_time() - c0
+        if used >= seconds or time.time() - w0 >= 20 * seconds:
+            raise CaseTimeout("case exceeded %.1f s" % seconds)
+        signal.setitimer(signal.ITIMER_REAL, max(0.05, seconds - used))
 
     old = signal.signal(signal.SIGALRM, onalarm)
     t0 = time.time()
